@@ -248,6 +248,74 @@ def same_relative_name_in_two_packages(chk):
             chk.coverage["traces_validated_against_impl"] += 1
 
 
+def included_values_are_per_cond_file(chk):
+    """Every COND file is evaluated on its own: a value it gets from `include()` and then extends IN PLACE (`L = BASE;
+    L += [...]`, `.append`) is its own business.  Two packages include the same file; //a extends the included list for a
+    task of its own (//a:gen), //b uses the list as it is.  Whatever the listing order of the dependencies of the target
+    (the loader evaluates the last-listed package first) the run must be accepted, exit 0, and execute exactly the
+    target's closure as the COND files declare it: //a:gen (and //c's private ":own") are outside it.  (Seeds C02/j and
+    C14/j: the never-filled include cache of TaskLoader was "repaired", so COND files parsed later in the same invocation
+    received the SAME objects: tasks gained dependencies they never declared -- executed outside the closure, or
+    reported as not found / cyclic / duplicate, depending on the listing order.)"""
+    import os
+    import implrun
+    from implrun import strip_ansi
+
+    root = implrun.make_project({"COND": ""})
+    log = os.path.join(root, "events.log")
+    cmd = lambda tag: "echo %s >> %s" % (tag, log)
+    files = {
+        "common.cond": 'BASE_DEPS = ["//:setup"]\nSHARED = {"deps": ["//:setup"]}\n',
+        "COND": 'run_command(name="setup", run="%s")\n' % cmd("setup")
+                + "".join('group(name="%s", deps=[%s])\n' % (n, ", ".join('"%s"' % d for d in ds)) for n, ds in
+                          (("ab", ["//a:x", "//b:y"]), ("ba", ["//b:y", "//a:x"]), ("cb", ["//c:z", "//b:y"]), ("bc", ["//b:y", "//c:z"]),
+                           ("db", ["//d:w", "//b:y"]), ("bd", ["//b:y", "//d:w"]))),
+        "a/COND": 'include("//common.cond")\nL = BASE_DEPS\nL += ["//a:gen"]\nrun_command(name="gen", run="%s")\nrun_command(name="x", run="%s", deps=["//:setup"])\n' % (cmd("a-gen"), cmd("a-x")),
+        "b/COND": 'include("//common.cond")\nrun_command(name="y", run="%s", deps=BASE_DEPS)\nrun_command(name="y2", run="%s", deps=SHARED["deps"])\ngroup(name="ys", deps=[":y", ":y2"])\n' % (cmd("b-y"), cmd("b-y2")),
+        "c/COND": 'include("//common.cond")\nBASE_DEPS.append(":own")\nrun_command(name="own", run="%s")\nrun_command(name="z", run="%s", deps=["//:setup"])\n' % (cmd("c-own"), cmd("c-z")),
+        "d/COND": 'include("//common.cond")\nSHARED["deps"].insert(0, "//:setup")\nBASE_DEPS.extend(["//:setup"])\nrun_command(name="w", run="%s", deps=["//:setup"])\n' % cmd("d-w"),
+    }
+    for rel, text in files.items():
+        os.makedirs(os.path.dirname(os.path.join(root, rel)), exist_ok=True)
+        open(os.path.join(root, rel), "w").write(text)
+    expect = {"ab": ["a-x", "b-y", "setup"], "ba": ["a-x", "b-y", "setup"], "cb": ["b-y", "c-z", "setup"], "bc": ["b-y", "c-z", "setup"],
+              "db": ["b-y", "d-w", "setup"], "bd": ["b-y", "d-w", "setup"]}
+    for target in sorted(expect):
+        for extra in ([], ["--check"]):
+            if os.path.exists(log):
+                os.unlink(log)
+            argv = ["run", "//:" + target] + extra
+            res = implrun.run_cond(argv, root, timeout=60)
+            chk.coverage["evaluations"] += 1
+            chk.count("real", "included-values")
+            ran = sorted(open(log).read().split()) if os.path.exists(log) else []
+            text = strip_ansi(res.out + res.err)
+            want = [] if extra else expect[target]
+            msg = None
+            if res.code != 0:
+                msg = "rejected (exit %s) although every COND file describes a complete, acyclic, duplicate-free graph: %s" % (res.code, text.strip()[-200:])
+            elif ran != want:
+                msg = "executed %r, the closure the COND files declare is %r" % (ran, want)
+            if msg:
+                chk.violation("impl-violation", "packages that include() the same file, one extends an included list in place; `cond %s`: %s" % (" ".join(argv), msg),
+                              {"input": {"scenario": "included-values", "files": files, "argv": argv}, "impl_observation": {"exit": res.code, "ran": ran, "output": text[-500:]}, "oracle_verdict": msg},
+                              match_key={"real": "included-values"}, size=4)
+            else:
+                chk.coverage["traces_validated_against_impl"] += 1
+    # the same target through the other package of b (y2 uses the included dict): both orders again
+    for argv in (["run", "//b:ys"],):
+        if os.path.exists(log):
+            os.unlink(log)
+        res = implrun.run_cond(argv, root, timeout=60)
+        chk.coverage["evaluations"] += 1
+        ran = sorted(open(log).read().split()) if os.path.exists(log) else []
+        if res.code != 0 or ran != ["b-y", "b-y2", "setup"]:
+            chk.violation("impl-violation", "`cond run //b:ys`: exit %s, executed %r" % (res.code, ran),
+                          {"input": {"scenario": "included-values", "files": files, "argv": argv}, "impl_observation": {"exit": res.code, "ran": ran}}, match_key={"real": "included-values"}, size=4)
+        else:
+            chk.coverage["traces_validated_against_impl"] += 1
+
+
 def unlaunchable_tasks(chk):
     """a task that CANNOT BE LAUNCHED -- the operating system refuses the command line (an embedded NUL byte, a
     character that cannot be encoded for the operating system), or a combine task's output path is taken by a regular file -- is a failed task like
@@ -602,6 +670,8 @@ def run_prop(prop, tier, seed, replay=None, extra_oracles=(), extra_part=None, e
                 chk.coverage["traces_validated_against_impl"] += 1
     if prop in ("C01", "C03", "C14", "C02"):
         same_relative_name_in_two_packages(chk)
+    if prop in ("C02", "C14"):
+        included_values_are_per_cond_file(chk)
     if prop in ("C03", "C09"):
         unlaunchable_tasks(chk)
     if prop == "C03":
